@@ -30,7 +30,11 @@ NOTES = ("Technique family: static analysis only. Every check parses the "
          "interpreter has a statement budget (non-termination is a "
          "finding). Exit 2 + ANALYSIS-ERROR means the analysis could not be "
          "carried out (anchor vanished, shape outside the known idioms); it "
-         "is never a verdict. The thorough tier adds checker "
+         "is never a verdict. The thorough tier runs the model-based rules "
+         "on larger families (C14: the whole parameter product of the "
+         "state machine model, C17: 51 EEPROM images, C20: all slot tables "
+         "of up to 6 FMMUs, C25: small-scope exhaustive draw sequences) "
+         "and adds checker "
          "self-validation on the recorded corpora: 609 seeded "
          "property-breaking changes (all reported), 16 "
          "mechanical variants and 609 hand-made behaviour-preserving "
